@@ -40,6 +40,30 @@ class Inconclusive(Exception):
     pass
 
 
+# named environment-model bundles a spec can ask for with 'models': [...]
+MODELS = {
+    'aligned_alloc': {
+        'preinclude': ['shim/pre/aligned_alloc.h'],
+        'intercept': {'_ZN8dispenso6detail13alignedMallocEmm': 'vf_aligned_malloc',
+                      '_ZN8dispenso6detail11alignedFreeEPv': 'vf_aligned_free'},
+        'doc': 'dispenso::detail::alignedMalloc/alignedFree replaced by their contract (fresh block, '
+               'aligned as requested; the real address arithmetic is checked under C44)',
+    },
+}
+
+
+def apply_models(inst):
+    for m in inst.get('models', []):
+        b = MODELS[m]
+        inst.setdefault('preinclude', [])
+        for x in b.get('preinclude', []):
+            if x not in inst['preinclude']:
+                inst['preinclude'].append(x)
+        ic = dict(b.get('intercept', {}))
+        ic.update(inst.get('intercept') or {})
+        inst['intercept'] = ic
+
+
 def sh(cmd, timeout=None, cwd=None, env=None, mem_gb=None):
     def lim():
         if mem_gb:
@@ -79,6 +103,8 @@ def lift(inst, wd):
     incs += ['-I' + REPO, '-I' + os.path.join(REPO, 'dispenso', 'third-party'), '-I' + RT,
              '-I' + os.path.join(ROOT, 'harness', 'common')]
     flags = list(CLANG_FLAGS) + inst.get('cflags', [])
+    for x in inst.get('preinclude', []):
+        flags += ['-include', os.path.join(ROOT, x)]
     if not inst.get('exceptions'):
         flags.append('-fno-exceptions')
     lls = []
@@ -99,12 +125,31 @@ def lift(inst, wd):
     return out
 
 
-def seq_inline(ll, wd):
+def mark_noinline(txt, names):
+    """add the noinline attribute to the definitions of the given functions (IR text)"""
+    out = []
+    for line in txt.split('\n'):
+        if line.startswith('define '):
+            m = re.search(r'@("?)([^"(\s]+)\1\(', line)
+            if m and m.group(2) in names:
+                head, sep, tail = line.partition(' personality')
+                i = head.rfind(')')
+                rest = head[i + 1:]
+                m2 = re.match(r'\s*(local_unnamed_addr|unnamed_addr)', rest)
+                j = i + 1 + (m2.end() if m2 else 0)
+                line = head[:j] + ' noinline' + head[j:] + sep + tail
+        out.append(line)
+    return '\n'.join(out)
+
+
+def seq_inline(ll, wd, keep=()):
     """engine 'cbmc-seq': inline everything into the thread roots with LLVM's own inliner, so that a
     root contains all its atomic operations / blocking calls directly and can be made resumable"""
     txt = open(ll).read()
     txt = re.sub(r'\bnoinline\b', '', txt)
     txt = re.sub(r'\boptnone\b', '', txt)
+    if keep:
+        txt = mark_noinline(txt, set(keep))
     pre = os.path.join(wd, 'h_pre.ll')
     open(pre, 'w').write(txt)
     out = os.path.join(wd, 'h_inl.ll')
@@ -146,6 +191,8 @@ def cbmc_cmd(cfile, inst, witness, trace=False):
     if inst.get('leak_check'):
         cmd.append('--memory-leak-check')
     cmd += ['-DVF_NTHREADS=%d' % nthr]
+    if inst.get('engine', 'cbmc') == 'cbmc':
+        cmd += ['-DVF_SEQUENTIAL=1']
     if inst.get('engine') == 'cbmc-seq':
         steps = inst.get('steps', 8)
         cmd += ['-DVF_SEQ=1', '-DVF_STEPS=%d' % steps, '--max-field-sensitivity-array-size',
@@ -227,7 +274,7 @@ def extract_inputs(trace):
         # scalar input log (seq engine): assignments to vf_in_last in trace order
         out = []
         for s in trace:
-            if s.get('stepType') == 'assignment' and s.get('lhs') == 'vf_in_last':
+            if s.get('stepType') == 'assignment' and s.get('lhs') == 'vf_in_last' and not s.get('hidden'):  # hidden = static initialisation
                 v = s.get('value') or {}
                 try:
                     out.append(int(v['binary'], 2) if v.get('binary') is not None
@@ -254,7 +301,7 @@ def extract_schedule_seq(trace):
     """seq engine: every visible operation assigns the running thread to vf_vis_t"""
     sched = []
     for s in trace:
-        if s.get('stepType') == 'assignment' and s.get('lhs') == 'vf_vis_t':
+        if s.get('stepType') == 'assignment' and s.get('lhs') == 'vf_vis_t' and not s.get('hidden'):
             v = s.get('value') or {}
             try:
                 t = int(v['binary'], 2) if v.get('binary') is not None else int(re.sub(r'[a-zA-Z]+$', '', v.get('data', '')))
@@ -287,15 +334,23 @@ def extract_schedule(trace, site_lines, cfile):
 def prepare_instance(inst, wd):
     os.makedirs(wd, exist_ok=True)
     t0 = time.time()
+    apply_models(inst)
     ll = lift(inst, wd)
     seq = inst.get('engine') == 'cbmc-seq'
     if seq:
-        ll = seq_inline(ll, wd)
+        ll = seq_inline(ll, wd, keep=list((inst.get('intercept') or {}).keys()) + inst.get('no_inline', []))
     try:
         mod = llir.load(ll)
-        src, em = ir2c.translate(mod, inst.get('roots', ['vf_main']),
+        roots = list(inst.get('roots', ['vf_main']))
+        for extra_root in ('vf_thread_state_dispose',):
+            if extra_root in mod.funcs and not mod.funcs[extra_root].is_decl and extra_root not in roots:
+                roots.append(extra_root)
+        inst['roots'] = roots
+        src, em = ir2c.translate(mod, roots,
                                  {'exceptions': inst.get('exceptions'), 'nsw_check': inst.get('nsw_check'),
-                                  'seq': seq, 'nthreads': inst.get('nthreads', 5)})
+                                  'seq': seq, 'nthreads': inst.get('nthreads', 5),
+                                  'intercept': inst.get('intercept'), 'rt_defs': inst.get('rt_defs', {}),
+                                  'typed_alloc': inst.get('typed_alloc', True)})
     except llir.Unsupported as e:
         raise Inconclusive('translator: unsupported construct: %s' % e)
     allowed = set(inst.get('allow_externals', []))
@@ -304,6 +359,11 @@ def prepare_instance(inst, wd):
         raise Inconclusive('unknown external functions (no model): ' + ', '.join(unk))
     cfile = os.path.join(wd, 'h.c')
     extra = ''
+    # externals the spec explicitly allows: no effect, arbitrary result (listed in the evidence)
+    for n in sorted(allowed & set(em.unknown_externals)):
+        f = mod.funcs[n]
+        body = '' if f.ret.kind == 'void' else ' %s r_; return r_;' % em.cty(f.ret)
+        extra += '%s {%s }\n' % (em.proto(f), body)
     for x in inst.get('rt_extra', []):
         extra += '#include "%s"\n' % os.path.join(ROOT, x)
     full = src + '\n' + extra + '#include "cbmc_rt.c"\n'
